@@ -28,22 +28,22 @@ extern void mpt_gnode_relink(MPT_STRUCT(node) *node)
 	node = node->children;
 	
 	while (node && node != start) {
-		if (node->children) {
-			node->children->parent = node;
-			if (node->next) {
-				node->next->parent = node->parent;
-				node->next->prev = node;
-			}
-			node = node->children;
-		}
+		/* links of successor and first child follow from the current node */
 		if (node->next) {
 			node->next->parent = node->parent;
 			node->next->prev = node;
-			node = node->next;
 		}
-		else {
-			/* stay below the start node (its siblings may have no parent) */
-			node = (node->parent == start) ? 0 : node->parent->next;
+		if (node->children) {
+			node->children->parent = node;
+			node = node->children;
+			continue;
+		}
+		/* next node in document order that is still below the start node */
+		while (node != start && !node->next) {
+			node = node->parent;
+		}
+		if (node != start) {
+			node = node->next;
 		}
 	}
 }
